@@ -384,6 +384,11 @@ func AnalyzePool(p *load.Program, r *Roles, depth int) *UnitResult {
 			pool := s.terms[0]
 			con := func(role string) string { return "NewWorkerPool:" + role }
 			switch ev.Kind {
+			case "make":
+				if ev.Class == "chan" && ev.Val != nil {
+					b := c.E.Bounds(c.St, ev.Val)
+					chk(c, "C19.R5,C12.R6", con("make-chan"), b.HasLo && b.Lo >= 0, ev, "the pool constructor makes a channel whose size ("+ev.Val.Pretty()+") is not known to be non-negative: a non-positive pool size would panic instead of meaning one worker")
+				}
 			case "go":
 				ok := ev.Callee == workerFn && len(ev.Args) == 1
 				chk(c, "C08.R1", con("spawn"), ok, ev, "the constructor starts something other than the pool's worker method")
